@@ -16,6 +16,9 @@ CHECKS = {
  "C11": ("fault_enumeration", "crash-point enumeration: the hook scheduler holds the operation at each filesystem step of its recorded trace, the harness SIGKILLs the gateway there, a newly started process is examined by an old-or-new state monitor (unique write ids) plus leftover/later-operation probes",
    "For every operation kind (PUT new/overwrite/versioned/with tags+lock, directory object, copy, upload-part, multipart completion, delete, delete marker, delete-by-version, batch delete) x storage configuration (O_TMPFILE|named temp x xattr|sidecar) the gateway is killed at EVERY hook hit of the operation's trace (exhaustive over the instrumented steps, single request in flight) and the state is judged through a fresh process; a no-crash control run of each operation must satisfy the same oracle.",
    "Trusts hook placement between filesystem steps; models process death (SIGKILL), not power loss (the code never fsyncs); tmpfs. Known findings: post-publication steps (tags/lock, multipart cleanup), two-step delete marker, directory objects, the sidecar store's path-based metadata.", "3/C11"),
+ "C17": ("exploration", "model-based admin/lookup histories judged after every acknowledgement (secret, role, uid/gid probes, ListUsers, users.json), gated cache-miss schedules at iamcache.afterFetch, porcupine per access key on concurrent histories, race-detector lane",
+   "Sequential histories judge every lookup that starts after an acknowledged create/update/delete (current secret accepted, every older secret refused, role and uid/gid effective, store file valid); deterministic schedules interleave a cold-cache lookup with delete/update; concurrent histories of 8 clients are checked for linearizability per access key against an account register model.",
+   "Trusts the account register model, porcupine, the single hook point in the cache-miss path; one gateway process as the property states; harness runs as root for chown probes.", "3/C17"),
 }
 PENDING_REASON = "check not yet built in this session (under construction; see DESIGN.md section 3)"
 props=[json.loads(l)["id"] for l in open(os.path.join(V,"properties.jsonl"))]
